@@ -40,7 +40,8 @@ def strategy():
         gs = cfgd["groups"][0]["cfg"]["gscale"]
         T = draw(st.sampled_from([2, 3, 4, 5, 6, 7, 8, 8]))
         steps = draw(st.lists(gen.st_step(n, gs, edits=True), min_size=T, max_size=T))
-        return {"config": cfgd, "steps": steps, "neg_k": draw(st.integers(0, len(steps))), "neg_pick": draw(st.integers(0, 10**6))}
+        return {"config": cfgd, "steps": steps, "neg_k": draw(st.integers(0, len(steps))), "neg_pick": draw(st.integers(0, 10**6)),
+                "order": draw(st.sampled_from(["natural", "natural", "sorted", "sorted_desc", "reversed"]))}
 
     return case()
 
@@ -64,12 +65,19 @@ def _same(rec: dict, r: history.OptRunner) -> str | None:
     return None
 
 
-def _save(r: history.OptRunner) -> Any:
+def _save(r: history.OptRunner, order: str = "natural") -> Any:
     sd = r.opt.distributed_state_dict(key_to_param=iter(r.named_params()))
     buf = io.BytesIO()
     torch.save(sd, buf)
     buf.seek(0)
-    return torch.load(buf, weights_only=False)
+    sd = torch.load(buf, weights_only=False)
+    if order != "natural":
+        # a checkpoint store hands the flat entries back in its own order (sorted, reversed): the state dict is the same mapping
+        for name in list(sd["state"]):
+            keys = sorted(sd["state"][name], reverse=(order == "sorted_desc")) if order.startswith("sorted") else list(sd["state"][name])[::-1]
+            sd["state"][name] = {k: sd["state"][name][k] for k in keys}
+        sd["state"] = {k: sd["state"][k] for k in sorted(sd["state"], reverse=True)}
+    return sd
 
 
 def oracle(case: dict) -> Outcome:
@@ -82,7 +90,8 @@ def oracle(case: dict) -> Outcome:
         return out
     saved: list[Any] = []
     recs: list[dict] = []
-    ok, sd0 = call_sut(out, "C09.save", "distributed_state_dict", lambda: _save(A))
+    order = case.get("order", "natural")
+    ok, sd0 = call_sut(out, "C09.save", "distributed_state_dict", lambda: _save(A, order))
     if not ok:
         return out
     saved.append(sd0)
@@ -104,7 +113,7 @@ def oracle(case: dict) -> Outcome:
             break
         refresh_at.append(any(rm.is_refresh(A.t[gi], A.hp[gi]["start"], A.hp[gi]["freq"]) and any(s["mask"][sum(len(g["shapes"]) for g in config["groups"][:gi]): sum(len(g["shapes"]) for g in config["groups"][:gi + 1])])
                               for gi in range(len(config["groups"]))))
-        ok, sd = call_sut(out, "C09.save", "distributed_state_dict", lambda: _save(A))
+        ok, sd = call_sut(out, "C09.save", "distributed_state_dict", lambda: _save(A, order))
         if not ok:
             return out
         saved.append(sd)
@@ -184,6 +193,7 @@ def oracle(case: dict) -> Outcome:
     out.nontrivial = nontrivial
     cl = out.classes
     cl.append(f"T{T_eff}")
+    cl.append(f"entry_order_{order}")
     for r in (A,):
         fin = r.finish()
         cl.extend(c for c in fin.classes if c.startswith(("graft_", "precond_", "multi_group", "ignored_dims", "block_order0", "momentum", "mask_change", "all_absent", "split", "merged")))
